@@ -207,6 +207,29 @@ def check(run: Run) -> None:
             outer, _ = _outer(t)
             run.check("C03.R3", f"k:* {'negated' if neg else 'plain'} is {'NOT IN' if neg else 'IN'} the notes having the key", outer == (".not_in" if neg else ".in_"), "property_filters", f"EXISTS neg={neg}: {outer}",
                       f"existence filter (negated={neg}) uses `{outer}`", file=FILE)
+    # several property filters in one AND group, in both iteration orders (the group is a set: the order is arbitrary at run time): each keeps ITS OWN membership operator and key
+    def two(order):
+        def mk(st):
+            a = obj(st, "PropertyFilter", key="k", value="", op=PO["EXISTS"], value_type=PV["STRING"], negated=True)
+            b = obj(st, "PropertyFilter", key="m", value="2", op=PO["GE"], value_type=PV["INTEGER"], negated=False)
+            c = obj(st, "PropertyFilter", key="e", value="", op=PO["EXISTS"], value_type=PV["STRING"], negated=False)
+            return [(a, b, c), (b, c, a), (c, a, b), (a, c, b)][order]
+        return mk
+
+    for order in range(4):
+        ts = _single(run, "C03.R2", "property_filters", run_helper(I, "property_filters", property_filters=two(order)))
+        for t in ts:
+            args = connective_args(t, "and_")
+            got = None
+            if args is not None:
+                got = set()
+                for a in args:
+                    keys = [e.args[1] for e in find(a, "==") if e.args[0] == Term("col", ("Property", "name"))]
+                    got.add((a.head if isinstance(a, Term) else "?", keys[0] if len(keys) == 1 else None))
+            want = {(".not_in", "k"), (".in_", "m"), (".in_", "e")}
+            run.check("C03.R2", f"!k:* m:>=2 e:* (iteration order {order}): AND of `NOT IN (has k)`, `IN (m >= 2)`, `IN (has e)`", got == want, "property_filters", f"order {order}: {sorted(got, key=repr) if got else t!r}"[:200],
+                      f"the property filters `!k:* m:>=2 e:*` of one AND group (iterated in order {order}) translate to {sorted(got, key=repr) if got else repr(t)[:200]}, expected {sorted(want)}: a filter's membership "
+                      "operator depends on the filters processed before it (juxtaposition is no longer AND of the individual filters, and the result depends on the set's iteration order)", file=FILE)
     casts = {"DATE": ("date", "from_date_spec"), "INTEGER": ("cast", None), "STRING": (None, None)}
     for vt, (colcast, valconv) in casts.items():
         val = new_text({"V"}, "value") if vt != "INTEGER" else "7"
